@@ -244,6 +244,101 @@ func (w *walker) op(line, result string) {
 	w.c.Op(line, result)
 }
 
+// proposeResult: the result text of a "propose" line (verdict, value quoted in the reason, reported changes, state).
+func proposeResult(cm *CM, during *Snap, vd Verdict, ch [6]float64) string {
+	valid := vd.valid
+	var sb strings.Builder
+	sb.WriteString(b2s(valid))
+	sb.WriteByte(' ')
+	if valid || cm.limVar < 0 {
+		sb.WriteString("-")
+	} else {
+		// the value quoted IN THE REASON TEXT (not on the grid / not parsable prints as nan or with extra digits)
+		sb.WriteString(gridFmt(vd.quoted, varPrec[cm.limVar]))
+	}
+	sb.WriteString(" C")
+	for k := range varNames {
+		sb.WriteByte(' ')
+		sb.WriteString(gridFmt(ch[k], varPrec[k]))
+	}
+	sb.WriteString(" | ")
+	sb.WriteString(cm.dumpSnap(during))
+	return sb.String()
+}
+
+// rawMisuse: the same non-conformant call sequences as misuse, but on the walk's own instance and THROUGH the line protocol,
+// so that the model's raw operations (propose / accept / revert as separate steps, which is what
+// aggregates_consistent_any_history quantifies over) are compared with the implementation off the conformant histories
+// too.  Only C11's aggregate clauses are evaluated directly; Initialise brings the instance back to a canonical state.
+func (w *walker) rawMisuse(r *Rng) {
+	if len(w.shadows) > 0 || w.quiet {
+		return
+	}
+	cm := w.cm
+	n := cm.n()
+	i, j := r.Intn(n), r.Intn(n)
+	kinds := []string{"propose;revert;accept", "propose;revert;revert", "propose;propose;accept", "accept", "revert", "propose;accept;accept", "propose;accept;revert", "propose;revert;accept;propose;accept", "propose;propose;revert;revert"}
+	kind := kinds[r.Intn(len(kinds))]
+	from := bitsStr(cm.flags())
+	w.c.Stat("raw misuse sequence " + kind)
+	for _, step := range strings.Split(kind, ";") {
+		var s *Snap
+		switch step {
+		case "propose":
+			if p := protect(func() { cm.tryRandom(i) }); p != "" {
+				w.op(fmt.Sprintf("propose %d", i), "panic")
+				w.c.Stat("raw misuse sequence panicked")
+				w.reinit("asis")
+				return
+			}
+			s = cm.snap()
+			w.op(fmt.Sprintf("propose %d", i), proposeResult(cm, s, cm.verdict(), cm.changes()))
+			i = j
+		case "accept", "revert":
+			if p := protect(func() {
+				if step == "accept" {
+					cm.m.AcceptChange()
+				} else {
+					cm.m.RevertChange()
+				}
+			}); p != "" {
+				w.op(step, "panic")
+				w.c.Stat("raw misuse sequence panicked")
+				w.reinit("asis")
+				return
+			}
+			s = cm.snap()
+			w.op(step, cm.dumpSnap(s))
+		}
+		w.aggregates(fmt.Sprintf("the call sequence %s (at %s) from set %s", kind, step, from), s, cm.pus)
+	}
+	w.reinit("asis")
+}
+
+// aggregates: C11's clauses alone, on one snapshot.
+func (w *walker) aggregates(after string, s *Snap, pus []planningunit.Id) {
+	for v := range varNames {
+		sum := 0.0
+		for _, pu := range pus {
+			sum += s.units[pu][v]
+		}
+		if !near(sum, s.totals[v]) {
+			w.fail("C11:total-is-sum-of-units", "catchment:total-not-sum:"+varShort[v],
+				fmt.Sprintf("after %s: %s total %v but planning-unit values sum to %v", after, varNames[v], s.totals[v], sum))
+		}
+	}
+	if !near(s.totals[3], s.totals[1]+s.totals[2]) {
+		w.fail("C11:tn-is-pn-plus-dn", "catchment:tn-not-pn-plus-dn", fmt.Sprintf("after %s: TN %v PN %v DN %v", after, s.totals[3], s.totals[1], s.totals[2]))
+	}
+	for _, pu := range pus {
+		u := s.units[pu]
+		if !near(u[3], u[1]+u[2]) {
+			w.fail("C11:tn-is-pn-plus-dn", "catchment:unit-tn-not-pn-plus-dn", fmt.Sprintf("after %s: planning unit %d TN %v PN %v DN %v", after, pu, u[3], u[1], u[2]))
+			break
+		}
+	}
+}
+
 // transaction: propose action i, then accept or revert.  decide: 0 revert, 1 accept, 2 accept iff valid.
 func (w *walker) transaction(i int, decide int, byKey bool) {
 	cm := w.cm
@@ -263,23 +358,7 @@ func (w *walker) transaction(i int, decide int, byKey bool) {
 	vd := cm.verdict()
 	valid := vd.valid
 	ch := cm.changes()
-	var sb strings.Builder
-	sb.WriteString(b2s(valid))
-	sb.WriteByte(' ')
-	if valid || cm.limVar < 0 {
-		sb.WriteString("-")
-	} else {
-		// the value quoted IN THE REASON TEXT (not on the grid / not parsable prints as nan or with extra digits)
-		sb.WriteString(gridFmt(vd.quoted, varPrec[cm.limVar]))
-	}
-	sb.WriteString(" C")
-	for k := range varNames {
-		sb.WriteByte(' ')
-		sb.WriteString(gridFmt(ch[k], varPrec[k]))
-	}
-	sb.WriteString(" | ")
-	sb.WriteString(cm.dumpSnap(during))
-	w.op(fmt.Sprintf("propose %d", i), sb.String())
+	w.op(fmt.Sprintf("propose %d", i), proposeResult(cm, during, vd, ch))
 
 	// C02: while only proposed, every reported value stays at its pre-proposal state
 	for k := range varNames {
@@ -617,6 +696,9 @@ func (w *walker) randomWalk(r *Rng, steps int) {
 	for k := 0; k < steps; k++ {
 		if k%16 == 5 {
 			w.misuse(r)
+		}
+		if k%16 == 11 {
+			w.rawMisuse(r)
 		}
 		x := r.Float()
 		switch {
